@@ -448,4 +448,137 @@ func init() {
 	}
 	register("c18.project", projectLeg)
 	register("c18.batch", projectLeg)
+
+	// ---- the same histories through the REAL language server, with documents OPEN while their files change on disk ----
+	// case: the c18.project grammar; further events  o<relhex> = textDocument/didOpen of that file with the text it has on
+	// disk at that moment (an `o` of a file that is not on disk is skipped),  x<relhex> = textDocument/didClose;
+	// c / m / d = the disk operation, then the watched-files event (1 / 2 / 3); a `+`-joined group = the disk operations
+	// in order, then ONE workspace/didChangeWatchedFiles notification with all its events.
+	// The case is translated into a script of harness/srv_script.go (fresh server process, cur = file 0, opened first);
+	// after the start and after every group: the published diagnostics and textDocument/definition on every module string.
+	// observable per step and reference: <type-6 diagnostic on its line 0|1>:{definition files}
+	register("c18.open", func(line string) string {
+		f := strings.Fields(line)
+		if len(f) < 5 {
+			return "BAD-CASE"
+		}
+		curRel := string(unhex(f[2]))
+		src := ""
+		type q struct{ line, col int }
+		qs := []q{}
+		for i, r := range c18Split(f[3]) {
+			s := string(unhex(r[1:]))
+			pre, post := fmt.Sprintf("local m%d = require(\"", i), "\")\n"
+			switch r[0] {
+			case 'q':
+				pre, post = fmt.Sprintf("local m%d = require '", i), "'\n"
+			case 'd':
+				pre = "dofile(\""
+			case 'D':
+				pre, post = "dofile('", "')\n"
+			}
+			qs = append(qs, q{i, len(pre)})
+			src += pre + s + post
+		}
+		hxs := func(s string) string { return hx([]byte(s)) }
+		disk := map[string]string{curRel: src}
+		items := []string{"F:" + hxs(curRel) + ":" + hxs(src)}
+		for _, it := range c18Split(f[1]) {
+			rel := string(unhex(it[1:]))
+			if it[0] == 'L' || it[0] == 'D' {
+				disk[rel] = "-- " + rel + "\n"
+				items = append(items, "F:"+hxs(rel)+":"+hxs(disk[rel]))
+			}
+		}
+		query := func() {
+			items = append(items, "S:diags")
+			for _, x := range qs {
+				items = append(items, fmt.Sprintf("S:define:0:%d:%d", x.line, x.col))
+			}
+		}
+		items = append(items, "S:open:0")
+		query()
+		nsteps := 1
+		for _, group := range c18Split(f[4]) {
+			watch := ""
+			for _, ev := range strings.Split(group, "+") {
+				rel := string(unhex(ev[1:]))
+				switch ev[0] {
+				case 'o':
+					if text, ok := disk[rel]; ok {
+						items = append(items, "S:popen:"+hxs(rel)+":"+hxs(text))
+					}
+				case 'x':
+					items = append(items, "S:pclose:"+hxs(rel))
+				case 'c':
+					disk[rel] = "return {}\n"
+					items = append(items, "S:fswrite:"+hxs(rel)+":"+hxs(disk[rel]))
+					watch += ":1:" + hxs(rel)
+				case 'm':
+					disk[rel] = "return {1}\n"
+					items = append(items, "S:fswrite:"+hxs(rel)+":"+hxs(disk[rel]))
+					watch += ":2:" + hxs(rel)
+				case 'd':
+					delete(disk, rel)
+					items = append(items, "S:fsrm:"+hxs(rel))
+					watch += ":3:" + hxs(rel)
+				default:
+					return "BAD-CASE"
+				}
+			}
+			if watch != "" {
+				items = append(items, "S:watch"+watch)
+			}
+			query()
+			nsteps++
+		}
+		ans := legs["srv.script"](strings.Join(items, " "))
+		parts := strings.Split(ans, " | ")
+		if len(parts) != nsteps*(1+len(qs)) {
+			return "SERVER " + strings.ReplaceAll(ans, " ", "_")
+		}
+		steps := []string{}
+		for k := 0; k < nsteps; k++ {
+			blk := parts[k*(1+len(qs)) : (k+1)*(1+len(qs))]
+			if !strings.HasPrefix(blk[0], "diags=[") {
+				return "SERVER " + strings.ReplaceAll(ans, " ", "_")
+			}
+			// diags=[rel{6@l:c-l:c,...};rel{...}]: the type-6 diagnostics of cur by line
+			e6 := map[int]bool{}
+			for _, fd := range strings.Split(strings.TrimSuffix(strings.TrimPrefix(blk[0], "diags=["), "]"), ";") {
+				if !strings.HasPrefix(fd, curRel+"{") {
+					continue
+				}
+				for _, d := range strings.Split(strings.TrimSuffix(fd[len(curRel)+1:], "}"), ",") {
+					if strings.HasPrefix(d, "6@") {
+						l, _ := strconv.Atoi(strings.SplitN(d[2:], ":", 2)[0])
+						e6[l] = true
+					}
+				}
+			}
+			out := []string{}
+			for i, x := range qs {
+				dv := blk[1+i]
+				if !strings.HasPrefix(dv, "define=[") || !strings.HasSuffix(dv, "]") {
+					return "SERVER " + strings.ReplaceAll(ans, " ", "_")
+				}
+				defs := map[string]bool{}
+				for _, loc := range strings.Split(dv[8:len(dv)-1], ",") {
+					if loc == "" {
+						continue
+					}
+					if at := strings.LastIndex(loc, "@"); at >= 0 {
+						loc = loc[:at]
+					}
+					defs[hxs(loc)] = true
+				}
+				if len(defs) == 0 {
+					defs["-"] = true
+				}
+				out = append(out, b2s(e6[x.line])+":"+c18Set(defs))
+			}
+			steps = append(steps, strings.Join(out, ","))
+		}
+		return strings.Join(steps, ";")
+	})
 }
